@@ -70,6 +70,14 @@ Theorem c10_registrations_placed_exactly_once : forall tr s, rrun rinit tr = Som
 Proof. exact rr_registrations_placed_exactly_once. Qed.
 Print Assumptions c10_registrations_placed_exactly_once.
 
+(** nobody is given two roles, or one role twice: the peers waiting in the queue, the repliers
+    that were bound, the repliers that were refused and the keyed requestors are pairwise distinct
+    -- in particular no replier is both bound and refused, and none is bound again after it left *)
+Theorem c10_roles_pairwise_distinct : forall tr s, rrun rinit tr = Some s ->
+  NoDup (map rlabel_of (rqueue s) ++ h_bound (rgh s) ++ h_rejected (rgh s) ++ map snd (h_keys (rgh s))).
+Proof. exact rr_roles_nodup. Qed.
+Print Assumptions c10_roles_pairwise_distinct.
+
 (** "the next replier to register becomes the bound one": at the control point where a replier's
     registration is taken from the queue (any state, reachable or not), it is bound exactly when
     nobody is bound -- in particular after the previous one departed -- and otherwise it is
